@@ -270,6 +270,7 @@ pub fn run(args: &Args) {
     turn::run_all(&mut run, &mut rng, thorough);
     // (7b) the agent's own check order and messages
     agent::run_all(&mut run, &mut rng, thorough);
+    turn::callsite_cases(&mut run, &mut rng, thorough);
     // (8) ICE server URIs (RFC 7064 / 7065)
     uri_cases(&mut run, &mut rng, thorough);
 
@@ -344,7 +345,7 @@ fn replay(case: &str) {
         }
     };
     let mut run = Run::new("c16", "/tmp/vh-c16-replay");
-    if agent::replay(&mut run, case) {
+    if agent::replay(&mut run, case) || turn::replay(&mut run, case) {
         for f in &run.fails { println!("ORACLE-FAIL {} {}", f.signature, f.detail); }
         if run.fails.is_empty() { println!("no oracle failure"); }
         return;
